@@ -405,6 +405,8 @@ class TranslatorC(Translator):
                         arg0,
                         arg1
                     )
+                    # The helper returns a signed integer
+                    out = "(%s&%s)" % (out, self._size2mask(expr.size))
                 else:
                     out = "bignum_%s(%s, %s, %d)" % (
                         expr.op,
